@@ -3,6 +3,7 @@
 from __future__ import annotations
 
 import functools
+import itertools
 import os
 
 from ..common import remove_scratch, scratch_dir, write_tree
@@ -116,7 +117,10 @@ def plan(tier, seed):
     shards = [{"part": "positions", "lo": lo, "hi": min(n, lo + per), "bound": f"positions nesting<={2 if tier == 'quick' else 4}"}
               for lo in range(0, n, per)]
     shards.append({"part": "skeleton", "bound": "skeleton triples"})
-    return {"shards": shards, "require_nonzero": ["edge-required", "nested", "orelse-or-handler", "skeleton"]}
+    npairs = len(pair_cases())
+    for lo in range(0, npairs, 200):
+        shards.append({"part": "pairs", "lo": lo, "hi": lo + 200, "bound": "two statements in one file"})
+    return {"shards": shards, "require_nonzero": ["edge-required", "nested", "orelse-or-handler", "skeleton", "two-statements"]}
 
 
 def check_importer(mod, obs_edges, must, may):
@@ -253,21 +257,29 @@ def run_skeleton(res, only=None):
                 mp_mod = mp_rel.replace("/", ".")
                 if not (imod.startswith(mp_mod + ".")):
                     continue
-                for spelling in ("qualified", "relative-to-module-path-parent"):
+                for spelling in ("qualified", "relative-to-module-path-parent", "externals-included-with-exclusion-matching-internal-names"):
                     s = stmt
-                    if spelling != "qualified":
+                    opts = {}
+                    if spelling.startswith("externals"):
+                        # option combination: external libraries included and an external exclusion pattern that
+                        # textually matches internal module names; internal imports must be unaffected
+                        opts = {"exclude_external_libraries": False, "external_exclusions": ("*b*", "*top*")}
+                        spelling_key = spelling
+                    if spelling == "relative-to-module-path-parent":
                         if mp_rel == "top" or fid.startswith("rel") or "top.b" not in stmt:
                             continue
                         s = stmt.replace("top.b", "b")
-                    key = [rel, fid, s, mp_rel]
+                    key = [rel, fid, s, mp_rel] + ([spelling] if opts else [])
                     if only is not None and only != key:
                         continue
                     path = os.path.join(base, rel)
                     with open(path, "w") as f:
                         f.write(s + "\n")
                     try:
-                        ev = scan(root, mp)
+                        ev = scan(root, mp, **opts)
                         mods, edges, _ = observed(ev)
+                        if opts:
+                            res.stats["skeleton:externals-included"] += 1
                     finally:
                         with open(path, "w") as f:
                             f.write("")
@@ -291,8 +303,63 @@ def run_skeleton(res, only=None):
         remove_scratch(base)
 
 
+def pair_cases():
+    """Two import statements in one file: the same name imported from two different modules, two
+    star imports, two plain imports (each statement must yield its own edge)."""
+    files = [(rel, "top." + rel[4:-3].replace("/", ".")) for rel in SKELETON]
+    targets = ["top.a", "top.b.c", "top.b.e.f", "top.b.g.h", "top.x", "top.b.e"]
+    out = []
+    for rel, imod in files:
+        ts = [t for t in targets if t != imod and not imod.startswith(t + ".")]
+        for t1, t2 in itertools.permutations(ts, 2):
+            out.append((rel, imod, "same-name", f"from {t1} import helper\nfrom {t2} import helper", {t1, t2}))
+            out.append((rel, imod, "same-name-nested", f"from {t1} import helper\ndef f():\n    from {t2} import helper", {t1, t2}))
+            out.append((rel, imod, "star", f"from {t1} import *\nfrom {t2} import *", {t1, t2}))
+            out.append((rel, imod, "same-alias", f"import {t1} as m\nimport {t2} as m", {t1, t2}))
+    return out
+
+
+def run_pairs(shard, res, only=None):
+    base = scratch_dir(f"c02-pairs-{shard.get('lo', 0)}")
+    try:
+        write_tree(base, SKELETON)
+        root = os.path.join(base, "top")
+        cases = pair_cases()
+        for rel, imod, fid, src, must in cases[shard.get("lo", 0) : shard.get("hi")]:
+            key = [rel, fid, src]
+            if only is not None and only != key:
+                continue
+            path = os.path.join(base, rel)
+            with open(path, "w") as f:
+                f.write(src + "\n")
+            try:
+                mods, edges, _ = observed(scan(root, root))
+            finally:
+                with open(path, "w") as f:
+                    f.write("")
+            res.states += 1
+            res.transitions += 1
+            res.evaluations += 1
+            res.traces += 1
+            res.nontrivial += 1
+            res.stats["two-statements"] += 1
+            out_edges = {v for (u, v) in edges if u == imod and not is_ancestor(v, imod)}
+            stray = {(u, v) for (u, v) in edges if u != imod and not is_ancestor(v, u)}
+            case = {"part": "pairs", "key": key}
+            if must - out_edges:
+                res.violation("import-statement-without-edge", case, sorted(must), {"missing": sorted(must - out_edges), "edges": sorted(out_edges)})
+            elif out_edges - must or stray:
+                res.violation("import-edge-without-statement", case, sorted(must), {"extra": sorted(out_edges - must), "stray": sorted(map(list, stray))})
+    finally:
+        remove_scratch(base)
+
+
 def run_shard(shard, tier, seed):
     res = Result(shard["bound"])
+    if shard["part"] == "pairs":
+        run_pairs(shard, res)
+        res.sample({"file": "top/a.py", "source": "from top.b.c import helper\nfrom top.x import helper", "edges": ["top.a -> top.b.c", "top.a -> top.x"]})
+        return res
     if shard["part"] == "positions":
         run_positions(shard, tier, res)
     else:
@@ -326,6 +393,8 @@ def _check_case(case):
     res = Result()
     if case.get("part") == "skeleton":
         run_skeleton(res, only=case["key"])
+    elif case.get("part") == "pairs":
+        run_pairs({}, res, only=case["key"])
     else:
         run_positions({"lo": case["lo"], "hi": case["hi"]}, case["tier"], res)
     if res.violations:
@@ -357,6 +426,8 @@ def minimise(v):
             v["signature"] = f"{v['kind']}:{'>'.join(chain)}"
         else:
             v["signature"] = f"{v['kind']}:module-level:{c['form']}:{c['kind']}"
+    elif c.get("part") == "pairs":
+        v["signature"] = f"{v['kind']}:two-statements:{c['key'][1]}"
     elif c.get("part") == "skeleton":
         v["signature"] = f"{v['kind']}:skeleton:{c['key'][1]}:{c['key'][3]}"
     else:
